@@ -321,6 +321,20 @@ Theorem C01_cut_proc : forall i i2 mid p,
 Proof. intros i i2 mid p Hs H inp bufs cfg. apply CutLoop.cut_proc_preserves; assumption. Qed.
 Print Assumptions C01_cut_proc.
 
+(** join_loops as DoJoinLoops performs it: distinct iteration Syms, second lower bound only semantically equal to the
+    first upper bound, bodies equal up to renaming the iteration variable *)
+Theorem C01_join_loops_renamed : forall i j lo mid mid2 hi body body2 par par1 par2,
+  env_only lo = true -> env_only mid = true -> env_only hi = true ->
+  (forall s, eval s mid2 = eval s mid) ->
+  forallb (okbind (okbR j i)) body2 = true -> forallb (nm_s j (hidR i)) body2 = true ->
+  pe_ss j (Var i) body2 = body ->
+  forall st st' l m h,
+    eval st lo = Ok (VInt l) -> eval st mid = Ok (VInt m) -> eval st hi = Ok (VInt h) ->
+    exec_list [For i lo mid body par1; For j mid2 hi body2 par2] st = Ok st' ->
+    exec_list [For i lo hi body par] st = Ok st'.
+Proof. exact CutLoop.rule_join_loops_renamed. Qed.
+Print Assumptions C01_join_loops_renamed.
+
 (** fission (one lift out of a loop) on the whole procedure, under the contract of Check_FissionLoop *)
 Theorem C01_fission_proc : forall i k p,
   (forall s l, FissionProc.fission_f i k s = Some l -> FissionProc.fission_sem_ok k s) ->
